@@ -47,12 +47,12 @@ PROPS = {
         assumptions=['plain-text exactness needs the first occurrence of the tag header in text++tag to be at |text| (the 16-byte header has period 15: inherent to the tag format)']),
     'C18': dict(
         module='Props.C18', level='proof',
-        profiles=dict(quick=[('lifecycle', 25, 1)], thorough=[('lifecycle', 120, 8), ('life', 150, 4)]),
+        profiles=dict(quick=[('lifecycle', 15, 1), ('lifecyclebfs', 400, 1)], thorough=[('lifecycle', 120, 8), ('lifecyclebfs', 3000, 1), ('lifecyclex', 5000, 1), ('life', 150, 4)]),
         explanation='exact effect of the three writers of the message state on state and security events, refusal in the finished state, queueing under required encryption (Props.C18); writers regenerated from /repo as facts; Go oracle over whole lifecycle histories: events exactly on IsEncrypted transitions, each text delivered at most once plus at most one marked resend, queued texts in order',
         assumptions=['retransmission discipline over whole histories is decided by the oracle + correspondence of the resend bookkeeping, not by a theorem']),
     'C03': dict(
         module='Props.C03', level='proof',
-        profiles=dict(quick=[('lifecycle', 25, 1)], thorough=[('lifecycle', 120, 8), ('life', 150, 4), ('policy', 1000, 1)]),
+        profiles=dict(quick=[('lifecycle', 15, 1), ('lifecyclebfs', 300, 1)], thorough=[('lifecycle', 120, 8), ('lifecyclebfs', 3000, 1), ('life', 150, 4), ('policy', 1000, 1)]),
         explanation='silent states and wire armour as theorems (Props.C03); Go oracle searches every wire output (raw, base64-decoded, reassembled fragments) for every text sent while encrypted / finished / under required encryption over lifecycle histories under random policy sets',
         assumptions=['secrecy of AES-CTR and of the DH-derived keys is assumed (ideal crypto)', 'noninterference of the other message fields is checked by the oracle, not proved']),
 }
